@@ -30,6 +30,9 @@ def run(c):
         "math/rand.Int31n(100) is an oracle argument; the harness fixes it with rand.Seed (go <= 1.23 semantics) for records with pct",
         "the signing identity (Identifier / header.i) of a DKIM result is an input of model and specification that neither reads (C07_verdict_ignores_dkim_identity, "
         "C07_spec_ignores_dkim_identity); it travels in the op line; the free-text Reason of a result and the fields of results of other methods are generated but not modelled",
+        "how the checks' verdicts reach applyResults (checkRunner.runAndMergeResults via checkStates / checkRcpt / checkBody) is modelled by CheckRes / mergedResults / mergedQuarantine / pipelineChecks: "
+        "one result-reporting check per block (results of several checks of ONE block are merged in goroutine completion order - not explored), a check answering Reject ends the command with its own reply "
+        "before applyResults and is outside the model; FailAction.Apply is run for real by the harness but not modelled",
         "asynchronous policy lookup: the model of the hand-off (Model/Dmarc.lean: timedLookup, pipelineBody) takes the stage at which each DNS answer arrives and "
         "the stage after which the lookup's context is cancelled; for the code (context of Body, cancelled by close() only) C07_answer_timing_irrelevant proves the "
         "decision independent of the schedule; the harness resolver honours its context like net.Resolver (a lookup cancelled before its answer arrived ends with a "
@@ -45,6 +48,9 @@ def run(c):
         "organizational domains: exact, other spelling, subdomain, sibling, public suffix, other registrant, unrelated) x (signing identity header.i of every DKIM result, 24 forms "
         "relative to d= and to the author domain: absent, @d, user@d, @sub.d / user@sub.sub.d with the author domain as that subdomain when it lies below d=, the author domain or a name "
         "below it whatever d= is, another domain, d= as a suffix off a label boundary, parent/sibling, upper case, IDN U-/A-labels, malformed, over-long; results without d= naming a domain in i= only) "
+        "x (how each result-reporting check hands its verdicts to the pipeline: at the CheckConnection / CheckSender / CheckRcpt / CheckBody stage, bare or - built with the real FailAction.Apply - "
+        "with a Reason and neither Reject nor Quarantine (action ignore; check.spf leaving the decision to DMARC), with Reason and Quarantine (own action quarantine), with header fields of its own, "
+        "the same check referenced by the later blocks again; `W` group) "
         "x (0-2 results of other methods saying pass for the author domain: iprev, domainkeys, sender-id, auth, upstream dmarc, generic dkim/spf/arc/dkim-atps; free-text reasons on every result); quick: random sample through the real "
         "Verifier and through the real pipeline; plus a strided sweep (offset by the seed) of the property's product (2.4e6 points: 6 author domains x 8 lookup outcomes x p x sp x adkim x aspf x 7 SPF values x 5-8 SPF identities x 1-2 DKIM results over value x identifier), quick 1/80, thorough 1/4; every pair of names through the real isAligned; "
         "distinct = distinct op lines",
